@@ -1,4 +1,63 @@
-import ZorgVerif.Model.NoteText
+import ZorgVerif.Lemmas.Index
+/-!
+# C06 — Incremental reindexing is equivalent to rebuilding the index
+Model: `Model/Index.lean` — files, indexed pages and the hash map; the page compiler together with the
+write-back (ZIDs, modify dates) is the parameter `sem.process`.  The theorems hold for every history of
+edits, deletions and reindex runs (with or without explicit paths), of any length, and for every `sem`
+that is `Stable`: re-processing a written-back text reproduces it (what is indexed depends only on the
+text that ends up in the file — the agreement of index and files that C05 / C11 establish).
+-/
 namespace ZorgVerif.C06
-theorem C06_placeholder : (1 : Nat) = 1 := rfl
+open ZorgVerif ZorgVerif.Index
+
+variable {Page : Type}
+
+/-- the invariant that every operation preserves: a page whose recorded hash is `t` is indexed as the
+from-scratch page of `t` -/
+theorem C06_invariant (sem : Sem Page) (hs : Stable sem) (s : Store Page) (h : Inv sem s) (ops : List Op) :
+    Inv sem (run sem s ops) := Inv.run hs ops h
+
+/-- what a plain reindex achieves, after any history: the index is exactly the from-scratch index of the
+files as they are now — no page of a deleted or renamed file survives, no page is missing, no edit is
+missed — and the hash map records exactly the current files -/
+theorem C06_plain_reindex (sem : Sem Page) (hs : Stable sem) (s : Store Page) (h : Inv sem s) (hu : Uniq s.files) :
+    (∀ p, get (reindexPlain sem s).db p = (get (reindexPlain sem s).files p).map (pageOf sem)) ∧
+    (∀ p, get (reindexPlain sem s).hashes p = get (reindexPlain sem s).files p) ∧
+    (∀ p, (get (reindexPlain sem s).files p).isSome = (get s.files p).isSome) := by
+  obtain ⟨a, _, c, _, e⟩ := reindexPlain_spec hs h hu
+  exact ⟨a, c, e⟩
+
+/-- **Equivalence**: for every history ending with a plain reindex, the index answers like an index
+freshly created from the final files (equal as maps from page path to indexed page), and rebuilding
+changes no file. -/
+theorem C06_equiv (sem : Sem Page) (hs : Stable sem) (s0 : Store Page) (h : Inv sem s0) (hu : Uniq s0.files)
+    (ops : List Op) :
+    let s := run sem s0 (ops ++ [Op.reindex])
+    let fresh := create sem ⟨s.files, [], []⟩
+    (∀ p, get s.db p = get fresh.db p) ∧ (∀ p, get fresh.files p = get s.files p) :=
+  reindex_eq_rebuild hs h hu ops
+
+/-- C05's idempotence at store level: a second reindex changes no file and no indexed page -/
+theorem C06_quiescent (sem : Sem Page) (hs : Stable sem) (s : Store Page) (h : Inv sem s) (hu : Uniq s.files) :
+    (reindexPlain sem (reindexPlain sem s)).files = (reindexPlain sem s).files ∧
+    (∀ p, get (reindexPlain sem (reindexPlain sem s)).db p = get (reindexPlain sem s).db p) :=
+  ⟨(reindexPlain_idem hs h hu).1, (reindexPlain_idem hs h hu).2.1⟩
+
+/-- `db create` from scratch indexes every file as its from-scratch page -/
+theorem C06_create (sem : Sem Page) (hs : Stable sem) (s : Store Page) (hu : Uniq s.files) :
+    ∀ p, get (create sem s).db p = (get (create sem s).files p).map (pageOf sem) :=
+  (create_spec hs s hu).1
+
+/-! Non-vacuity: a concrete `Stable` semantics (pages = texts, write-back appends a marker once) and a
+history with an edit, a deletion and an explicit-path reindex -/
+def exSem : Sem Str := ⟨fun _ t => if t.getLast? == some '!' then (t, t) else (t ++ ['!'], t ++ ['!'])⟩
+theorem exSem_stable : Stable exSem := by
+  intro old t
+  simp only [exSem]
+  split <;> simp_all
+def exFinal : Store Str := run exSem ⟨[("a".toList, "x".toList), ("b".toList, "y!".toList)], [], []⟩
+  [Op.reindex, Op.write "a".toList "z".toList, Op.reindexOnly ["b".toList], Op.remove "b".toList, Op.reindex]
+example : (get exFinal.db "a".toList, get exFinal.db "b".toList, get exFinal.files "a".toList) =
+    (some "z!".toList, none, some "z!".toList) := by decide +kernel
+
 end ZorgVerif.C06
